@@ -298,6 +298,8 @@ pub enum HKey {
     /// the key, the second word is a coarse attribute of the key (seven values),
     /// so that many distinct keys share sig[1] (signatures stay distinct).
     Coarse(u64),
+    /// 128-bit integer keys that differ only in their upper 64 bits
+    U128(u128),
 }
 
 impl ToSig<[u64; 2]> for HKey {
@@ -306,6 +308,7 @@ impl ToSig<[u64; 2]> for HKey {
             HKey::Usize(x) => <usize as ToSig<[u64; 2]>>::to_sig(x, seed),
             HKey::U64(x) => <u64 as ToSig<[u64; 2]>>::to_sig(x, seed),
             HKey::Str(s) => <str as ToSig<[u64; 2]>>::to_sig(s.as_str(), seed),
+            HKey::U128(x) => <u128 as ToSig<[u64; 2]>>::to_sig(x, seed),
             HKey::Coarse(x) => {
                 let s = <u64 as ToSig<[u64; 2]>>::to_sig(x, seed);
                 [s[0], (x % 7).wrapping_mul(0x9E37_79B9_7F4A_7C15)]
@@ -321,6 +324,7 @@ impl ToSig<[u64; 1]> for HKey {
             HKey::U64(x) => <u64 as ToSig<[u64; 1]>>::to_sig(x, seed),
             HKey::Str(s) => <str as ToSig<[u64; 1]>>::to_sig(s.as_str(), seed),
             HKey::Coarse(x) => <u64 as ToSig<[u64; 1]>>::to_sig(x, seed),
+            HKey::U128(x) => <u128 as ToSig<[u64; 1]>>::to_sig(x, seed),
         }
     }
 }
@@ -338,6 +342,7 @@ enum Kt {
     U64,
     Str,
     Coarse,
+    U128,
 }
 
 impl Kt {
@@ -347,6 +352,7 @@ impl Kt {
             "u64" => Kt::U64,
             "str" => Kt::Str,
             "coarse" => Kt::Coarse,
+            "u128" => Kt::U128,
             k => panic!("unknown key type {k}"),
         }
     }
@@ -356,6 +362,8 @@ impl Kt {
             Kt::Usize => *key = HKey::Usize(kf.int_key(i) as usize),
             Kt::U64 => *key = HKey::U64(kf.int_key(i)),
             Kt::Coarse => *key = HKey::Coarse(kf.int_key(i)),
+            // the index goes to the upper half, the lower half is the same for all keys
+            Kt::U128 => *key = HKey::U128(((kf.int_key(i) as u128) << 64) | 0x1234_5678_9ABC_DEF0),
             Kt::Str => {
                 if let HKey::Str(s) = key {
                     kf.str_key(i, s);
